@@ -148,6 +148,7 @@ type Interp struct {
 	Hook       func(x *Interp, t *rapid.T) // optional: runs instead of Prog.Body (C03 etc.)
 	OnDone     func(inv *Invocation)       // optional: called when the record of an invocation is complete
 
+	late     []lateSig
 	mu       sync.Mutex
 	gens     map[*GenSpec]*rapid.Generator[any]
 	cur      *Invocation
@@ -156,6 +157,8 @@ type Interp struct {
 }
 
 type harnessAbort struct{ why string }
+
+type lateSig struct{ rel, done chan struct{} }
 
 func NewInterp(p *Prog) *Interp {
 	x := &Interp{Prog: p, Env: &BuildEnv{}, MaxActions: 100000}
@@ -194,18 +197,33 @@ func (x *Interp) ev(e Event) {
 
 // Begin starts the record of a new invocation (and completes the previous one).
 func (x *Interp) Begin(t *rapid.T) *Invocation {
-	x.Finish()
+	x.finish()
 	inv := &Invocation{Idx: len(x.Log), Seq0: nextSeq(), TID: fmt.Sprintf("%p", t)}
 	inv.scopes = []*scope{{id: 0, kind: "prop", t: t, subs: x.gens}}
 	inv.rej0, inv.key0 = atomic.LoadInt64(&x.Env.Rejects), atomic.LoadInt64(&x.Env.KeyCalls)
 	x.Log = append(x.Log, inv)
 	x.cur = inv
 	x.actCount = 0
+	for _, l := range x.late {
+		l.rel <- struct{}{} // signal now, while this (later) invocation is running
+		<-l.done
+	}
+	x.late = nil
 	return inv
 }
 
 // Finish completes the record of the last invocation; call it after the library returned.
 func (x *Interp) Finish() {
+	x.finish()
+	// goroutines still waiting for a next invocation that never comes are let go without signalling
+	for _, l := range x.late {
+		close(l.rel)
+		<-l.done
+	}
+	x.late = nil
+}
+
+func (x *Interp) finish() {
 	if x.cur != nil && !x.cur.Done {
 		inv := x.cur
 		// by now the library has run the cleanups of this invocation: every context handed out must be cancelled
@@ -387,6 +405,17 @@ func (x *Interp) execStmt(fr *frame, st *Stmt) {
 			x.exec(&frame{sc: fr.sc, where: "go"}, st.Body)
 		}()
 		wg.Wait()
+	case "golate":
+		// a goroutine started by this test case that signals (non-fatally) on this test case's T only when the NEXT
+		// invocation of the property begins
+		rel, done := make(chan struct{}), make(chan struct{})
+		x.late = append(x.late, lateSig{rel: rel, done: done})
+		go func() {
+			defer close(done)
+			if _, ok := <-rel; ok {
+				x.exec(&frame{sc: fr.sc, where: "go"}, st.Body)
+			}
+		}()
 	case "repeat":
 		x.repeat(fr, st)
 	default:
@@ -456,6 +485,9 @@ func (x *Interp) signal(fr *frame, st *Stmt) {
 	site := ""
 	if class != "nonfatal" {
 		site = fmt.Sprintf("%d/%s@%s", st.Site%numSites, st.Kind, harnessStack())
+		if st.Site%numSites >= 4 {
+			site += fmt.Sprintf("line%d", st.Site%2) // two raising lines inside one closure
+		}
 	}
 	x.ev(Event{K: "sig", Scope: fr.sc.id, Name: st.Kind, Class: class, Site: site, Where: fr.where, Msg: msg})
 	sites[st.Site%numSites](fr.sc.t, st.Kind, base, st.Site)
@@ -491,9 +523,9 @@ func harnessStack() string {
 	return b.String()
 }
 
-const numSites = 4
+const numSites = 6
 
-var sites = [numSites]func(t *rapid.T, kind, msg string, n int){site0, site1, site2, site3}
+var sites = [numSites]func(t *rapid.T, kind, msg string, n int){site0, site1, site2, site3, runAction, maybeValue}
 
 //go:noinline
 func site0(t *rapid.T, kind, msg string, n int) { doSignal(t, kind, msg, n) }
@@ -506,6 +538,36 @@ func site2(t *rapid.T, kind, msg string, n int) { doSignal(t, kind, msg, n) }
 
 //go:noinline
 func site3(t *rapid.T, kind, msg string, n int) { doSignal(t, kind, msg, n) }
+
+// runAction and maybeValue are failure sites whose names (and whose first closure) collide with internal
+// function names of the library: a user is free to call a helper like that, and two failures raised at different
+// lines of such a closure are two failure sites.
+//
+//go:noinline
+func runAction(t *rapid.T, kind, msg string, n int) {
+	func() {
+		if kind == "panicString" && n%2 == 0 {
+			panic(msg)
+		}
+		if kind == "panicString" {
+			panic(msg)
+		}
+		doSignal(t, kind, msg, n)
+	}()
+}
+
+//go:noinline
+func maybeValue(t *rapid.T, kind, msg string, n int) {
+	func() {
+		if kind == "panicError" && n%2 == 0 {
+			panic(&panicErr{msg})
+		}
+		if kind == "panicError" {
+			panic(&panicErr{msg})
+		}
+		doSignal(t, kind, msg, n)
+	}()
+}
 
 var (
 	nilPtr  *int
